@@ -625,20 +625,39 @@ def run(ctx):
     def bump(d, k):
         d[k] = d.get(k, 0) + 1
 
-    # ---- class cases -----------------------------------------------------------------------
-    for cls in CLASSES:
-        for k in range(n_class):
-            exact = (k % 3 != 0)
-            c = gen_physics(rng, cls, exact, impl)
-            exact = c["exact"]
-            m = atomic_weight(impl, c)
-            T = orc.Tabs()
-            W = orc.Walk(T, K, fr(s2f))
-            comps = walk_case(W, c, m)
-            gen_window(rng, c, comps, exact, quick)
-            if rng.random() < 0.15:
-                c["smp0"] = [dyadic(rng, 0, 8, 4) for _ in range(c["bins"])]
-                dist["prefilled"] += 1
+    # ---- class cases (the corpus of past disagreements first) ----------------------------------------
+    import glob
+    import json
+    from common import VERIF
+    corpus = []
+    for f in sorted(glob.glob(os.path.join(VERIF, "corpus", "C02", "*.json"))):
+        cc = json.load(open(f))
+        cc.pop("note", None)
+        cc["corpus"] = os.path.basename(f)
+        corpus.append(cc)
+    dist["corpus_cases"] = len(corpus)
+    todo = [(cc["cls"], cc) for cc in corpus] + [(cls, k) for cls in CLASSES for k in range(n_class)]
+    for cls, k in todo:
+        if True:
+            if isinstance(k, dict):
+                c = k
+                exact = c["exact"]
+                m = atomic_weight(impl, c)
+                T = orc.Tabs()
+                W = orc.Walk(T, K, fr(s2f))
+                comps = walk_case(W, c, m)
+            else:
+                exact = (k % 3 != 0)
+                c = gen_physics(rng, cls, exact, impl)
+                exact = c["exact"]
+                m = atomic_weight(impl, c)
+                T = orc.Tabs()
+                W = orc.Walk(T, K, fr(s2f))
+                comps = walk_case(W, c, m)
+                gen_window(rng, c, comps, exact, quick)
+                if rng.random() < 0.15:
+                    c["smp0"] = [dyadic(rng, 0, 8, 4) for _ in range(c["bins"])]
+                    dist["prefilled"] += 1
             c["delta"] = float(impl.spectrum(c).delta_wavelength)
             ctx.crumb(c)
             out = impl.run(c, smp0=c.get("smp0"))
@@ -696,7 +715,7 @@ def run(ctx):
     files = []
     # order the cases by cost so that the shards are balanced
     order = sorted(range(len(cases)), key=lambda i: -(cases[i][0]["bins"] * max(1, len(cases[i][3]))))
-    nshard = 16
+    nshard = max(16, -(-len(cases) // 200))
     shards = [order[i::nshard] for i in range(nshard)]
     for si, ids in enumerate(shards):
         if not ids:
@@ -760,6 +779,9 @@ def run(ctx):
                 continue
             lo, hi = min(l - r for l, r in act), max(l + r for l, r in act)
             c["gmin"], c["gmax"], c["bins"] = lo - 0.05 * (hi - lo), hi + 0.05 * (hi - lo), 64
+            lws = [float(wd) for kd, R, lam, wd in comps if kd == "L" and wd > 0]
+            if lws:      # keep the Stark bins <= 0.8 FWHM (accuracy of the code's quadrature, see gen_window)
+                c["bins"] = max(64, int(math.ceil(1.1 * (hi - lo) / (0.8 * min(lws)))))
             c["delta"] = float(impl.spectrum(c).delta_wavelength)
             ctx.crumb(c)
             search_fails += property_failures(impl, W, c, m)
@@ -815,5 +837,7 @@ def run(ctx):
                     "(C02_stark_integral_partial); the tie checks it numerically against the closed form",
                     "accuracy of libm and of the code's Gaussian quadrature is not proved"],
     })
+    ctx.coverage["stark_coarse_grid_probe"] = {"integral_over_R_by_bin_width_in_FWHM": coarse["rows"],
+                                               "worst_rel_err": coarse["worst_rel_err"]}
     ctx.coverage["samples"] = [cases[0][0], cases[len(cases) // 2][0]] if cases else []
     ctx.grep_gate()
